@@ -931,12 +931,9 @@ fn settle(report: &mut Report, outcomes: Vec<Outcome>, groups: &mut BTreeMap<Str
             report.hist("H19", if h { "inside" } else { "outside" });
         }
         let mut violations = o.violations;
-        // known region: strictness hole of the unit generator variant (recorded finding)
+        // known region: sequences read as require modes (recorded finding F28)
         violations.retain(|v| {
-            if v.check.starts_with("strict-") && is_retain_lines_extra_field(&o.case) {
-                report.count("known_region_strict_retain_lines_extra_field", 1);
-                false
-            } else if v.check.starts_with("strict-") && is_require_mode_sequence(&o.case) {
+            if v.check.starts_with("strict-") && is_require_mode_sequence(&o.case) {
                 report.count("known_region_strict_require_mode_sequence", 1);
                 false
             } else {
@@ -996,25 +993,6 @@ fn is_require_mode_sequence(case: &Case) -> bool {
     find(&case.j)
 }
 
-fn is_retain_lines_extra_field(case: &Case) -> bool {
-    // {generator: {name: 'retain_lines' | 'retain-lines', <anything else>}} with the fault inside that object
-    fn find(j: &J) -> bool {
-        match j {
-            J::Obj(kvs) => {
-                kvs.iter().any(|(k, v)| {
-                    k == "generator"
-                        && matches!(v, J::Obj(g) if g.len() > 1
-                            && g.iter().filter(|(k, _)| k == "name").count() == 1
-                            && g.iter().any(|(k, v)| k == "name" && matches!(v, J::Str(n) if n == "retain_lines" || n == "retain-lines")))
-                }) || kvs.iter().any(|(_, v)| find(v))
-            }
-            J::Arr(xs) => xs.iter().any(find),
-            _ => false,
-        }
-    }
-    case.origin.contains("generator") && find(&case.j)
-}
-
 /// "two configurations that behave differently never serialise to the same text"
 fn check_groups(report: &mut Report, groups: &BTreeMap<String, Vec<(String, String, bool)>>) {
     for (text, members) in groups {
@@ -1069,7 +1047,18 @@ fn replay_known(report: &mut Report) {
             _ => false,
         };
         if still {
-            report.known_finding(&id, f["expected_wrong"].as_str().unwrap_or(""));
+            if f["status"] == "fixed" {
+                // a repaired defect is not excused any more
+                report.violation(Violation {
+                    kind: "oracle".into(),
+                    check: "fixed-finding-regressed".into(),
+                    what: format!("{} is recorded as fixed but its witness fails again: {}", id, f["expected_wrong"].as_str().unwrap_or("")),
+                    input: json!({"kind": "known-finding", "id": id, "witness": w}),
+                    failing_input_found: true,
+                });
+            } else {
+                report.known_finding(&id, f["expected_wrong"].as_str().unwrap_or(""));
+            }
         }
     }
 }
